@@ -67,7 +67,25 @@ def gen_scenario(rng, idx):
     if _uses_drop(spec) and rng.random() < 0.85:
         mode["lazy"] = True
     kinds = ["exc_msg"] + rng.sample([k for k in faults.KINDS if k != "exc_msg"], 4)
-    return {"spec": spec, "frame": frame, "mode": mode, "kinds": kinds, "pairs_seed": rng.getrandbits(32), "trigger_free": trigger_free}
+    sc = {"spec": spec, "frame": frame, "mode": mode, "kinds": kinds, "pairs_seed": rng.getrandbits(32), "trigger_free": trigger_free}
+    # ambient configuration: the caller may itself be inside a config_context whose options differ from the global ones; a
+    # failing validate must put back *that* configuration, not the global one (drawn from its own stream)
+    r2 = kernel.derive(sc["pairs_seed"], "ambient")
+    if r2.random() < 0.35:
+        mode["ctx"] = r2.choice(AMBIENT)
+    return sc
+
+
+AMBIENT = [{"cache_dataframe": True}, {"keep_cached_dataframe": True}, {"validation_depth": "SCHEMA_AND_DATA"},
+           {"validation_depth": "SCHEMA_AND_DATA", "cache_dataframe": True, "keep_cached_dataframe": True}]
+
+
+def ambient_kwargs(ctx):
+    from pandera.config import ValidationDepth
+    kw = dict(ctx)
+    if kw.get("validation_depth"):
+        kw["validation_depth"] = ValidationDepth[kw["validation_depth"]]
+    return kw
 
 
 def scenario_tags(sc):
@@ -172,6 +190,7 @@ class Scenario:
         self.cfg0 = config_fp()
         self.stats = {}
         self.keys = set()
+        self.inner = None
         cols = sc["frame"]["columns"]
         self.nrows = len(cols[0]["values"]) if cols else 0
         self.site_kind = {}
@@ -189,7 +208,17 @@ class Scenario:
     def call(self, plan):
         st = faults.install(faults.FaultState(plan))
         d = world.copy_frame(self.d0)
-        out = run_call(lambda: call_validate(self.subject, d, self.mode))
+        self.inner = None
+        if self.mode.get("ctx"):
+            from pandera.config import config_context
+            with config_context(**ambient_kwargs(self.mode["ctx"])):
+                inner0 = config_fp()
+                out = run_call(lambda: call_validate(self.subject, d, self.mode))
+                inner1 = config_fp()
+            if inner0 != inner1:
+                self.inner = (inner0, inner1)
+        else:
+            out = run_call(lambda: call_validate(self.subject, d, self.mode))
         faults.install(faults.FaultState())
         return out, st, d
 
@@ -201,6 +230,10 @@ class Scenario:
             for what in classify(diff_paths(self.fp0, f1, limit=40)):
                 out.append((f"trace|schema|{what}|{tag}", f"schema fingerprint changed at {diff_paths(self.fp0, f1)}"))
             self.restore_subject()
+        if self.inner is not None:
+            out.append((f"trace|config-inside-ambient-context|{','.join(sorted(generalise(p) for p in diff_paths(*self.inner)))}|{tag}",
+                        f"inside the caller's own config_context the configuration was {self.inner[0]['context']} before validate and "
+                        f"{self.inner[1]['context']} after it"))
         c1 = config_fp()
         if c1 != self.cfg0:
             out.append((f"trace|config|{','.join(sorted(generalise(p) for p in diff_paths(self.cfg0, c1)))}|{tag}",
@@ -364,6 +397,8 @@ def run_scenario(sc, plans=None, want_sample=False):
             scn.bump("probe.two_faults_fired_in_one_lazy_call")
         if lazy and out0.raised:
             scn.bump("probe.fault_in_lazy_call_that_also_has_data_errors")
+        if scn.mode.get("ctx"):
+            scn.bump("probe.fault_inside_callers_own_config_context")
         n, kind, site, _ = st.fired[0]
         role = scn.roles.get(site, "check")
         posclass = "first" if n == 1 else ("last" if n == n_inv else "mid")
@@ -476,7 +511,7 @@ def shrink_candidates(payload):
             f = copy.deepcopy(fr)
             f["columns"].pop(i)
             yield emit(new_frame=f)
-    for key in ("head", "tail", "inplace"):
+    for key in ("head", "tail", "inplace", "ctx"):
         if sc["mode"].get(key):
             m = dict(sc["mode"])
             m[key] = None if key != "inplace" else False
